@@ -939,8 +939,10 @@ ssize_t recv(int fd, void *buf, size_t len, int flags) {
                 G->logf("recv(%d,%zu) = %zu", fd, len, n);
                 KRET(C_RECV, (ssize_t)n);
             }
+            // Linux tcp_recvmsg: a FIN already received (SOCK_DONE) ends the stream with 0 before a pending error is looked at
+            if (s->in->fin_delivered) { G->logf("recv(%d,%zu) = 0 (EOF)", fd, len); KRET(C_RECV, 0); }
             if (s->so_error) { int er = s->so_error; s->so_error = 0; G->logf("recv(%d,%zu) = %s", fd, len, strerror(er)); KERR(C_RECV, er); }
-            if (s->dead || s->in->fin_delivered) { G->logf("recv(%d,%zu) = 0 (EOF)", fd, len); KRET(C_RECV, 0); }
+            if (s->dead) { G->logf("recv(%d,%zu) = 0 (EOF)", fd, len); KRET(C_RECV, 0); }
             if (s->nonblock) { G->logf("recv(%d,%zu) = EAGAIN", fd, len); KERR(C_RECV, EAGAIN); }
             maysleep_check("recv() on a blocking descriptor");
             bool ok = block_until([s] { return !s->in->rq.empty() || s->dead || s->in->fin_delivered || s->so_error; }, -1, "recv");
